@@ -1,10 +1,12 @@
 import Mkts.Lemmas.SqlCS
+import Mkts.Model.SqlTie
 import Mkts.Props.C08
 /-!
 # C20 — SQL projection, alias, LIMIT and INSERT INTO behave relationally (fixed-length buckets)
 
-Model: `materializeSelect` (SourceValidator, Project, Rename, RestrictLength, LIMIT push-down only
-without predicates) and `materializeInsert` (→ `WriteCSM` → `writeRecords` of the Store model).
+Model: `materializeSelect` (SourceValidator, the one-pass projection/alias step, RestrictLength —
+also for `LIMIT 0` —, LIMIT push-down only without predicates; the code after the repairs of
+C20-F1 and C20-F2, pinned over the regenerated skeletons by `skel_*`) and `materializeInsert` (→ `WriteCSM` → `writeRecords` of the Store model).
 INSERT re-uses the Store model for the target bucket, so `C20_insert` inherits C08's exclusion
 (1D buckets on January 1: stated for sub-day timeframes).
 -/
@@ -21,18 +23,30 @@ theorem C20_project_names (cs : CS) (keep : List String) (h : ∀ n ∈ keep, (c
 theorem C20_project_data (cs : CS) (keep : List String) (n : String) (hn : n ∈ keep) (d : List Bytes)
     (hd : cs.get n = some d) : (cs.project keep).get n = some d := project_get cs keep n hn d hd
 
+/-! ## tie: the statements of the source the repaired behaviour rests on -/
+
+set_option maxRecDepth 20000 in
+theorem skel_limit_clause : Mkts.SqlTie.limitClauseRecorded = true := by decide
+set_option maxRecDepth 20000 in
+theorem skel_projection_one_pass : Mkts.SqlTie.projectionOnePass = true := by decide
+
 /-! ## LIMIT -/
 
-/-- **LIMIT n (n ≠ 0) = the first n rows of the filtered result**, whether or not the limit is
-    pushed down into the reader (it is only without predicates). -/
+/-- **LIMIT n = the first n rows of the filtered result, for every n (0 included)**, whether or not
+    the limit is pushed down into the reader (it is only without predicates and for n ≠ 0). -/
 theorem C20_limit (db : List Table) (t : Table) (key : String) (conj : List Conj) (n : Nat)
-    (hn : n ≠ 0) (hfind : findTable db key = some t)
+    (hfind : findTable db key = some t)
     (hnf : (buildGroup conj).any (fun e => e.2.isFalse) = false) :
-    materializeSelect db ⟨true, [], key, conj, n⟩ =
+    materializeSelect db ⟨true, [], key, conj, n, true⟩ =
       .ok (csOfRows t.cols ((selectRows t (buildGroup conj) 0).take n)) := by
-  have hn' : (n != 0) = true := by simpa using hn
   simp only [materializeSelect, hnf, hfind, Bool.false_eq_true, if_false, Bool.not_true, Bool.false_and,
-    hn', if_true]
+    Bool.true_or, if_true]
+  by_cases hn : n = 0
+  · subst hn
+    rw [restrictLength_csOfRows]
+    simp only [List.take_zero]
+    split <;> rfl
+  have hn' : (n != 0) = true := by simpa using hn
   cases hg : buildGroup conj with
   | nil =>
     have hread0 : readRows t [] 0 = query t.tf t.slots ⟨none, none, none⟩ := by
@@ -61,53 +75,71 @@ theorem C20_limit (db : List Table) (t : Table) (key : String) (conj : List Conj
       simp only [Bool.false_eq_true, if_false]
       rw [restrictLength_csOfRows]
 
-/-- the property's LIMIT law, for every n -/
-def C20_limit_full : Prop :=
-  ∀ (db : List Table) (t : Table) (key : String) (n : Nat), findTable db key = some t →
-    materializeSelect db ⟨true, [], key, [], n⟩ =
-      .ok (csOfRows t.cols ((selectRows t [] 0).take n))
+/-- without a LIMIT clause every filtered row is returned -/
+theorem C20_no_limit (db : List Table) (t : Table) (key : String) (conj : List Conj)
+    (hfind : findTable db key = some t)
+    (hnf : (buildGroup conj).any (fun e => e.2.isFalse) = false) :
+    materializeSelect db ⟨true, [], key, conj, 0, false⟩ =
+      .ok (csOfRows t.cols (selectRows t (buildGroup conj) 0)) := by
+  simp only [materializeSelect, hnf, hfind, Bool.false_eq_true, if_false, Bool.not_true, Bool.false_and,
+    Bool.false_or, bne_self_eq_false]
+  cases he : (readRows t (buildGroup conj) 0).isEmpty with
+  | true =>
+    have : readRows t (buildGroup conj) 0 = [] := List.isEmpty_iff.mp he
+    simp [selectRows, this, postFilter, restrict]
+  | false => simp
 
 def wT : Table := ⟨"T/1Min/OHLC", 60000000000, [⟨"A", .i32⟩, ⟨"B", .f32⟩],
   applyHist 60000000000 [[⟨1583056800, [1,0,0,0,0,0,0,0x3f]⟩, ⟨1583056860, [2,0,0,0,0,0,0xc0,0x3f]⟩]]⟩
 
-/-- FALSE of the code for n = 0: `LIMIT 0` is parsed into `sr.Limit = 0`, which is also the value for
-    "no LIMIT clause": every row comes back instead of none. -/
-theorem C20_cex_limit0 : ¬ C20_limit_full := by
-  intro h
-  have := h [wT] wT "T/1Min/OHLC" 0 (by decide)
-  revert this
-  decide
+/-- `LIMIT 0` on the witness: no rows (before the repair: both rows) -/
+example : materializeSelect [wT] ⟨true, [], "T/1Min/OHLC", [], 0, true⟩ = .ok (csOfRows wT.cols []) := by decide
 
 /-! ## aliases -/
 
-/-- the property's alias law on a two-item select list: `SELECT x AS a, y` returns two columns
-    named `a` and `y` holding the data of `x` and `y` -/
-def C20_alias_full : Prop :=
-  ∀ (db : List Table) (t : Table) (key x a y : String), findTable db key = some t →
-    x ≠ y → a ≠ x →
-    (t.cols.any (fun c => c.name == x) = true) → (t.cols.any (fun c => c.name == y) = true) →
-    (readRows t [] 0).isEmpty = false →
-    ∃ cs, materializeSelect db ⟨false, [⟨x, some a⟩, ⟨y, none⟩], key, [], 0⟩ = .ok cs ∧
-      cs.names = [a, y] ∧
-      cs.get a = (csOfRows t.cols (selectRows t [] 0)).get x ∧
-      cs.get y = (csOfRows t.cols (selectRows t [] 0)).get y
+theorem csOfRows_get_isSome (cols : List ColDef) (rows : List Row) (n : String)
+    (h : n = "Epoch" ∨ cols.any (fun c => c.name == n) = true) : ((csOfRows cols rows).get n).isSome = true := by
+  simp only [CS.get, csOfRows, Option.isSome_map, List.find?_cons]
+  by_cases hE : ("Epoch" == n) = true
+  · simp [hE]
+  · have hE' : ("Epoch" == n) = false := by simpa using hE
+    simp only [hE']
+    rcases h with h | h
+    · subst h; simp at hE
+    · rw [List.find?_isSome]
+      obtain ⟨c, hc, hcn⟩ := List.any_eq_true.mp h
+      exact ⟨(c.name, _), List.mem_map.mpr ⟨c, hc, rfl⟩, hcn⟩
 
-/-- FALSE of the code when the alias is the name of another selected column
-    (`SELECT A AS B, B`): `Rename` first removes the existing column `B`; one column is left. -/
-theorem C20_cex_alias_collision : ¬ C20_alias_full := by
-  intro h
-  obtain ⟨cs, h1, h2, _⟩ := h [wT] wT "T/1Min/OHLC" "A" "B" "B" (by decide) (by decide) (by decide) (by decide)
-    (by decide) (by decide)
-  have hm : materializeSelect [wT] ⟨false, [⟨"A", some "B"⟩, ⟨"B", none⟩], "T/1Min/OHLC", [], 0⟩ =
-      .ok ⟨["B"], [("B", [[1,0,0,0],[2,0,0,0]])]⟩ := by decide
-  rw [hm] at h1
-  cases h1
-  revert h2
-  decide
+/-- **select list with aliases**: when the output names (alias, or the column's own name) are
+    pairwise distinct and every item names Epoch or a column of the bucket, the statement returns
+    exactly the output names in select-list order, each carrying the data of its source column —
+    also when an alias is the name of another selected column (`SELECT Epoch AS A, A AS X`). -/
+theorem C20_alias (db : List Table) (t : Table) (key : String) (conj : List Conj) (items : List Item)
+    (hfind : findTable db key = some t)
+    (hnf : (buildGroup conj).any (fun e => e.2.isFalse) = false)
+    (hknown : ∀ it ∈ items, it.name = "Epoch" ∨ t.cols.any (fun c => c.name == it.name) = true)
+    (hnd : (items.map Item.out).Nodup)
+    (hrows : (readRows t (buildGroup conj) 0).isEmpty = false) :
+    ∃ cs, materializeSelect db ⟨false, items, key, conj, 0, false⟩ = .ok cs ∧
+      cs.names = items.map Item.out ∧
+      ∀ it ∈ items, cs.get it.out = (csOfRows t.cols (selectRows t (buildGroup conj) 0)).get it.name := by
+  have hk : ((items.map (·.name)).any fun n => n != "Epoch" && !(t.cols.any fun c => c.name == n)) = false := by
+    rw [List.any_eq_false]
+    intro n hn
+    obtain ⟨it, hit, rfl⟩ := List.mem_map.mp hn
+    rcases hknown it hit with h | h <;> simp [h]
+  obtain ⟨out, hp, hnames, hget⟩ := projectOnePass_spec (csOfRows t.cols (selectRows t (buildGroup conj) 0)) items hnd
+    (fun it hit => csOfRows_get_isSome _ _ _ (hknown it hit))
+  refine ⟨out, ?_, hnames, hget⟩
+  simp only [materializeSelect, hnf, hfind, hk, hrows, hp, Bool.false_eq_true, if_false, Bool.not_false,
+    Bool.true_and, Bool.false_or, bne_self_eq_false]
 
-/-- with a fresh alias the law holds on the witness (non-vacuity of the alias law) -/
-example : materializeSelect [wT] ⟨false, [⟨"A", some "X"⟩, ⟨"B", none⟩], "T/1Min/OHLC", [], 0⟩ =
-    .ok ⟨["X", "B"], [("B", [[0,0,0,0x3f],[0,0,0xc0,0x3f]]), ("X", [[1,0,0,0],[2,0,0,0]])]⟩ := by decide
+/-- the former collision witnesses on the bucket `wT`: `SELECT Epoch AS A, A AS X` returns both
+    columns; `SELECT A AS A` returns the column -/
+example : materializeSelect [wT] ⟨false, [⟨"Epoch", some "A"⟩, ⟨"A", some "X"⟩], "T/1Min/OHLC", [], 0, false⟩ =
+    .ok ⟨["A", "X"], [("A", [leInt 8 1583056800, leInt 8 1583056860]), ("X", [[1,0,0,0],[2,0,0,0]])]⟩ := by decide
+example : materializeSelect [wT] ⟨false, [⟨"A", some "A"⟩], "T/1Min/OHLC", [], 0, false⟩ =
+    .ok ⟨["A"], [("A", [[1,0,0,0],[2,0,0,0]])]⟩ := by decide
 
 /-! ## INSERT INTO … SELECT -/
 
@@ -129,7 +161,7 @@ theorem C20_insert (tf : Int) (hist : List (List Row)) (rows : List Row) (htf : 
 
 /-- non-vacuity: 1Min source into an empty 5Min target with the same schema -/
 example : materializeInsert [wT, ⟨"U/5Min/OHLC", 300000000000, [⟨"A", .i32⟩, ⟨"B", .f32⟩], []⟩]
-    ⟨"U/5Min/OHLC", none, ⟨true, [], "T/1Min/OHLC", [], 0⟩⟩ =
+    ⟨"U/5Min/OHLC", none, ⟨true, [], "T/1Min/OHLC", [], 0, false⟩⟩ =
     some (.ok (.written 2, [wT, ⟨"U/5Min/OHLC", 300000000000, [⟨"A", .i32⟩, ⟨"B", .f32⟩],
       [((2020, 17401), [2,0,0,0,0,0,0xc0,0x3f])]⟩])) := by decide
 
